@@ -35,6 +35,7 @@ def opts(tier):
     o.max_chunks = 5
     o.long_run_p = 0.006
     o.short_last_p = 0.08
+    o.declared_huge_p = 0.01
     o.equal_shapes_p = 0.2
     return gen.deepen(o, tier)
 
